@@ -164,11 +164,70 @@ class Exec(ExprMixin, CallMixin):
         if c.decreases is not None:
             self.measure0 = self.spec_value(c.decreases, st).z
         body = self.fn.body
-        if c.start_loop is not None:
+        if c.start_after_loop is not None or c.stop_after_loop is not None:
+            out = self.run_tile(st)
+            if c.stop_after_loop is not None:
+                self.finish_tile(out)
+                return
+        elif c.start_loop is not None:
             out = self.run_from_loop(st, c.start_loop)
         else:
             out = self.block(body, st)
         self.finish(out)
+
+    def run_tile(self, st):
+        """Segment between two top-level loops of the function body (see Contract.start_after_loop / stop_after_loop)."""
+        c = self.c
+        body = list(self.fn.body)
+
+        def top_index(ordn):
+            node = self.loops[ordn]
+            for i, s_ in enumerate(body):
+                if s_ is node:
+                    return i
+            raise Unsupported('loop %s is not a top-level statement of the function' % ordn)
+        lo = 0
+        if c.start_after_loop is not None:
+            lo = top_index(c.start_after_loop) + 1
+            for nm, ts in c.locals.items():
+                if nm in ('[]', '{}'):
+                    continue
+                t = self.eng.ptype(ts)
+                v = SV(t, t.fresh('l_' + nm))
+                st.locals[nm] = v
+                for a in self.type_inv(v, st):
+                    st.assume(a)
+            for a in c.start_assume:
+                st.assume(self.spec_eval(a, st))
+            self.entry = st.copy()
+            st.old = self.entry
+            cov = self.eng.obl('cover', 'segment', 'segment precondition satisfiable')
+            cov.expect_sat = True
+            cov.add(st.hyps(), z3.BoolVal(True))
+        hi = len(body)
+        if c.stop_after_loop is not None:
+            hi = top_index(c.stop_after_loop) + 1
+        return self.block(body[lo:hi], st)
+
+    def finish_tile(self, out):
+        """End of a segment that stops inside the function: end_ensures must hold in every state that falls through."""
+        c, eng = self.c, self.eng
+        if out.rets:
+            raise Unsupported('return inside a segment that stops before the end of the function')
+        if not out.normals:
+            raise Unsupported('segment has no fall-through state')
+        cov = eng.obl('cover', 'exit', 'end of segment reachable')
+        cov.expect_sat = 'any'
+        for st in out.normals:
+            cov.add(st.hyps(), z3.BoolVal(True), 'fallthrough')
+        for i, e in enumerate(c.end_ensures):
+            o = eng.obl('post', 'end_ensures#%d' % i, e)
+            for st in out.normals:
+                env = {}
+                g = self.spec_eval(e, st, env)
+                o.add(st.hyps(), g, 'segment-end')
+        for st, exc, where in out.excs:
+            self.exc_obligation(st, exc, where)
 
     def apply_hints(self):
         """Attach element-type hints from contract.locals to empty list/dict literals assigned to those names."""
@@ -1123,7 +1182,8 @@ class Exec(ExprMixin, CallMixin):
             hi_sv = SV(T.Int, hi)
 
             def envf(cur):
-                return {iname: cur.locals[idx]}
+                # the loop index and the (fixed) bound of the range are visible to invariants as <index> and <index>_hi
+                return {iname: cur.locals[idx], iname + '_hi': hi_sv}
 
             def cond(cur):
                 i = cur.locals[idx].z
